@@ -1,6 +1,5 @@
 import UsualProofs.C02.Loop
 import UsualProofs.C11.Strings
-import UsualProofs.Props.C11
 /-!
 # C02 — well-formed UTF-8 byte strings (`C11.WFString`) over `List UInt8`
 -/
